@@ -773,13 +773,20 @@ def rule_kernels(repo: Repo, rep: Report) -> None:
         fi = repo.func(ALG, qual)
         body = [_PolyModel({"self", oname}).visit(copy.deepcopy(st)) for st in fi.body]
         body = [ast.fix_missing_locations(b) for b in body]
+        # private helper methods of the class that work on plain words (an extracted bit-spreading / reduction step) are followed
+        helper_funcs = {}
+        if fi.cls is not None:
+            for nm_, m_ in fi.cls.methods.items():
+                if nm_.startswith("_") and not nm_.startswith("__"):
+                    helper_funcs[f"self.{nm_}"] = m_.node
+                    helper_funcs[f"{fi.cls.name}.{nm_}"] = m_.node
         bad = None
         undec = None
         count = 0
         for a, b in small + big:
             want = ref(a, b)
             try:
-                run_fragment(body, {}, {"self.value": a, f"{oname}.value": b}, max_steps=4000)
+                run_fragment(body, {}, {"self.value": a, f"{oname}.value": b}, max_steps=20000, funcs=helper_funcs)
                 got = "no return"
             except FragReturn as r:
                 got = r.value
